@@ -369,7 +369,7 @@ package stream
 //@ func (*Stream).IsEncrypted
 //@   props C09 C14
 //@   pure
-//@   ensures result == s.encrypted
+//@   ensures [shared] result == s.encrypted
 
 // ---- C15: crypto-state export / import -------------------------------------------------------------------------
 //@ pred be16(b, i) = b[i]*256 + b[i+1]
@@ -402,8 +402,8 @@ package stream
 //@ func NewStream (conn) (result)
 //@   props C15 C12
 //@   assigns nothing
-//@   ensures fresh_stream: fresh(result) && result.conn == conn && result.reader == conn && result.writer == conn
-//@   ensures no_crypto: !result.encrypted && !result.authenticated && result.gcm == nil && result.encryptKey == nil && result.encryptCounter == 0 && result.decryptCounter == 0 && !result.finishedSendAAD && !result.finishedRecvAAD && result.finalSendDigest == nil && result.finalRecvDigest == nil && !result.sendDigestWritten && !result.recvDigestWritten
+//@   ensures fresh_stream: [shared] fresh(result) && result.conn == conn && result.reader == conn && result.writer == conn
+//@   ensures no_crypto: [shared] !result.encrypted && !result.authenticated && result.gcm == nil && result.encryptKey == nil && result.encryptCounter == 0 && result.decryptCounter == 0 && !result.finishedSendAAD && !result.finishedRecvAAD && result.finalSendDigest == nil && result.finalRecvDigest == nil && !result.sendDigestWritten && !result.recvDigestWritten
 //@   ensures digests_on: result.sendDigest != nil && result.recvDigest != nil
 //@   ensures framing_empty: framingEmpty(result)
 
@@ -455,18 +455,18 @@ package stream
 //@   props C04 C12
 //@   requires wf: [typeinv] digestsWF(s)
 //@   assigns s.finalSendDigest, s.finalRecvDigest
-//@   ensures frozen: s.finalSendDigest != nil && s.finalRecvDigest != nil && digestsWF(s)
-//@   ensures once: (old(s.finalSendDigest) != nil ==> s.finalSendDigest == old(s.finalSendDigest)) && (old(s.finalRecvDigest) != nil ==> s.finalRecvDigest == old(s.finalRecvDigest))
+//@   ensures frozen: [shared] s.finalSendDigest != nil && s.finalRecvDigest != nil && digestsWF(s)
+//@   ensures once: [shared] (old(s.finalSendDigest) != nil ==> s.finalSendDigest == old(s.finalSendDigest)) && (old(s.finalRecvDigest) != nil ==> s.finalRecvDigest == old(s.finalRecvDigest))
 
 //@ func (*Stream).SetSymmetricKey
 //@   props C12 C04 C06
 //@   requires wf: [typeinv] digestsWF(s)
 //@   assigns s.gcm, s.encryptKey, s.encryptIV, s.encryptCounter, s.decryptCounter, s.finishedSendAAD, s.finishedRecvAAD, s.finalSendDigest, s.finalRecvDigest, s.encrypted, randCount
-//@   ensures bad_key: len(key) != 32 ==> err != nil && s.gcm == old(s.gcm) && s.encrypted == old(s.encrypted) && randCount == old(randCount)
-//@   ensures keyed: [C12 C06] err == nil ==> s.gcm != nil && s.encrypted && len(s.encryptKey) == 32 && fresh(s.encryptKey) && forall i :: 0 <= i && i < 32 ==> s.encryptKey[i] == old(key[i])
-//@   ensures iv_fresh: [C12] err == nil ==> randCount == old(randCount) + 1 && s.encryptCounter == 0 && s.decryptCounter == 0 && !s.finishedSendAAD && !s.finishedRecvAAD
-//@   ensures digests_frozen: [C04] err == nil ==> s.finalSendDigest != nil && s.finalRecvDigest != nil && digestsWF(s) && (old(s.finalSendDigest) != nil ==> s.finalSendDigest == old(s.finalSendDigest)) && (old(s.finalRecvDigest) != nil ==> s.finalRecvDigest == old(s.finalRecvDigest))
-//@   ensures wf_kept: digestsWF(s)
+//@   ensures bad_key: [shared] len(key) != 32 ==> err != nil && s.gcm == old(s.gcm) && s.encrypted == old(s.encrypted) && randCount == old(randCount)
+//@   ensures keyed: [shared C12 C06] err == nil ==> s.gcm != nil && s.encrypted && len(s.encryptKey) == 32 && fresh(s.encryptKey) && forall i :: 0 <= i && i < 32 ==> s.encryptKey[i] == old(key[i])
+//@   ensures iv_fresh: [shared C12] err == nil ==> randCount == old(randCount) + 1 && s.encryptCounter == 0 && s.decryptCounter == 0 && !s.finishedSendAAD && !s.finishedRecvAAD
+//@   ensures digests_frozen: [shared C04] err == nil ==> s.finalSendDigest != nil && s.finalRecvDigest != nil && digestsWF(s) && (old(s.finalSendDigest) != nil ==> s.finalSendDigest == old(s.finalSendDigest)) && (old(s.finalRecvDigest) != nil ==> s.finalRecvDigest == old(s.finalRecvDigest))
+//@   ensures wf_kept: [shared] digestsWF(s)
 
 //@ func (*Stream).prepareCryptoForSecret
 //@   props C12 C09
